@@ -199,7 +199,7 @@ pub fn gen_hist(o: &Opts, r: &mut Rng, k: u64, tier: &str) -> Vec<String> {
     // custom formats other than the standard one are kept out of append-restarts (finding: 20-byte slice)
     let spec = if o.restarts > 0 && o.prop != "C06" { spec.rsplitn(2, ' ').nth(1).map(|s| format!("{s} 0")).unwrap() } else { spec };
     // C06: restarts with every format, incl. the day-first one (text order ≠ time order)
-    let dayfirst = o.prop == "C06" && naming.starts_with("ts") && r.chance(1, 3);
+    let dayfirst = o.prop == "C06" && !o.cleanup && naming.starts_with("ts") && r.chance(1, 3);   // (with cleanup: known finding C07-day-first-format)
     let spec = if dayfirst { spec.rsplitn(2, ' ').nth(1).map(|s| format!("{s} 3")).unwrap() } else { spec };
     c.push(spec);
     let n: u64 = *r.pick(&[0, 1, 5, 16, 40, 64]);
@@ -376,6 +376,9 @@ pub fn gen_c09(tier: &str, seed: u64) -> Vec<Vec<String>> {
 pub fn gen_c06(tier: &str, seed: u64) -> Vec<Vec<String>> {
     let mut v = gen_with(Opts { prop: "C06", size: true, age: true, force_rot: true, restarts: 4, cleanup: false, faults: false, ext: false, modes: false, max_ops: 40, namings: ALL, foreign: false, exist: false, bg: 0 }, tier, seed, 500, 6000);
     v.extend(gen_c06_across_month_end(tier, seed));
+    // … and with the cleanup strategies (incl. compression): what a restart finds may be only
+    // compressed files, gaps in the numbering, restart siblings whose low end is gone
+    v.extend(gen_with(Opts { prop: "C06", size: true, age: true, force_rot: true, restarts: 4, cleanup: true, faults: false, ext: false, modes: false, max_ops: 40, namings: ALL, foreign: false, exist: false, bg: 0 }, tier, seed ^ 0xC6C, 200, 3000).into_iter().map(|mut c| { c[0] = c[0].replacen("C06 ", "C06 c", 1); c }));
     v
 }
 
@@ -629,6 +632,51 @@ pub fn gen_c11(tier: &str, seed: u64) -> Vec<Vec<String>> {
                     c.push("READ".into());
                     c.push("SNAP".into());
                     c.push("LINK".into());
+                    c.push("END".into());
+                    cases.push(c);
+                }
+            }
+        }
+        // (3) a backlog for the cleanup: an earlier run without cleanup leaves several rotated files;
+        //     the next run's first cleanup pass has several files to compress/remove and is killed
+        //     in between (newer files already compressed, older ones still plain); the logger
+        //     started after that goes on rotating
+        for backlog_cleanup in ["0,3", "1,2"] {
+            if !has_suffix { continue; }
+            let cfg_never = format!("CFG {}", cfg_line(&Some(format!("0;_;{naming};never")), false, None, symlink, has_suffix));
+            let backlog_rot = Some(format!("0;_;{naming};{backlog_cleanup}"));
+            let mut pre: Vec<String> = Vec::new();
+            let mut cl = Clock::new(&mut r);
+            let mut sq = 0u64;
+            for _ in 0..r.range(4, 7) {
+                cl.epoch += 1;
+                pre.push(format!("W {} {} -", hex(&record(sq, r.range(2, 16))), cl.tick(&mut r)));
+                sq += 1;
+            }
+            pre.push("SHUT".into());
+            cl.epoch += 2;
+            pre.push(format!("RESTART {}", cfg_line(&backlog_rot, r.chance(1, 2), None, symlink, has_suffix)));
+            let victim = hex(&record(sq, r.range(2, 16)));
+            let vnow = cl.tick(&mut r);
+            for p in points.iter().filter(|p| p.starts_with("compress") || p.starts_with("cleanup")) {
+                for occ in 0..3u64 {
+                    if tier != "thorough" && (occ + hno) % 2 == 1 { continue; }
+                    let mut c = vec![format!("CASE flw C11 {k}"), spec.clone(), cfg_never.clone()];
+                    k += 1;
+                    c.extend(pre.iter().cloned());
+                    c.push(format!("CW {victim} {vnow} {p} {occ}"));
+                    c.push("SNAP".into());
+                    let mut cl2 = Clock { epoch: cl.epoch + *r.pick(&[1i64, 2, 70]), small: false };
+                    c.push(format!("RESTART {}", cfg_line(&backlog_rot, r.chance(1, 2), None, symlink, has_suffix)));
+                    let mut s2 = sq + 1;
+                    for _ in 0..r.range(3, 7) {
+                        cl2.epoch += 1;
+                        c.push(format!("W {} {} -", hex(&record(s2, r.range(2, 16))), cl2.tick(&mut r)));
+                        s2 += 1;
+                    }
+                    c.push("ERRS".into());
+                    c.push("READ".into());
+                    c.push("SNAP".into());
                     c.push("END".into());
                     cases.push(c);
                 }
